@@ -26,7 +26,7 @@ LOOP_CLASSES = [
     ('move', re.compile(r'for \( i = 0; i < number_to_move')),
     ('grow', re.compile(r'while \( num_to_read <= 0 \)')),
     ('lineno', re.compile(r'for \( yyl = |YY_LINENO_REWIND_TO')),
-    ('getc', re.compile(r'for \( n = 0; n < max_size')),
+    ('getc', re.compile(r'for \( n = 0; n < max_size|while \( n < max_size && c != ')),
     ('fread', re.compile(r'while \( \(result = ')),
     ('shiftup', re.compile(r'while \( source > ')),
     ('copybytes', re.compile(r'for \( i = 0; i < _yybytes_len')),
